@@ -106,6 +106,29 @@ def main():
             dphi = np.deg2rad(phi / (n - 1))
             V = (n - 1) * np.sin(dphi) * (2.0 * 1.0 * 1.5)
             out.write(rec(rid, sec.revolve(n=n, phi=phi, axis=0), expect=6 * V, tol=2048))
+    # merging of NEAR-duplicate points (round-off noise far below the rounding tolerance 10^-decimals) through every entry point
+    rng = np.random.RandomState(1600 + a.seed)
+    for api in ("sweep", "function", "container-init", "container-method"):
+        for dec in (4, 6):
+            rid = "merge-%s-dec%d" % (api, dec)
+            if not out.want(rid):
+                continue
+            A = fem.Rectangle(a=(0, 0), b=(1, 1), n=3)
+            B = fem.Rectangle(a=(1, 0), b=(2, 0.5), n=(3, 2))
+            B = fem.Mesh(B.points + rng.uniform(-1, 1, size=B.points.shape) * 10.0 ** (-dec - 3), B.cells, B.cell_type)
+            cat = fem.mesh.concatenate([A, B])
+            if api == "sweep":
+                child = cat.merge_duplicate_points(decimals=dec)
+            elif api == "function":
+                child = fem.mesh.merge_duplicate_points(cat, decimals=dec)
+            else:
+                if api == "container-init":
+                    c = fem.MeshContainer([A, B], merge=True, decimals=dec)
+                else:
+                    c = fem.MeshContainer([A, B])
+                    c.merge_duplicate_points(decimals=dec)
+                child = fem.Mesh(c.points, np.vstack([m_.cells for m_ in c.meshes]), "quad")
+            out.write(rec(rid, child, expect=3.0, parent=cat))
     out.close()
 
 
